@@ -15,12 +15,14 @@ func init() {
 			ID: "C31", Title: "IS-IS point-to-point adjacencies follow the three-way handshake and hold timer", Level: "other",
 			Technique:   "guard extraction and value-dependence rules (R-GATE, R-DEP) on the typed AST/go/cfg of the adjacency code: what every state change is control-dependent on, what the hold timer is computed from, which states the timeout check covers, what the local LSP's neighbor list is built from",
 			DesignRef:   "DESIGN.md §4 C31",
-			Decided:     "(1) the adjacency state is set to Up only under `the neighbor's three-way TLV names this system and this circuit` (both the system ID and the circuit ID are compared), and hello processing sets it to Down only under the negation for an adjacency that is Up; (2) the holding time armed at creation and at every later hello is computed from the HoldingTimer field of that hello; (3) the periodic checker applies the holding time to every adjacency that is not already Down (so one that never came Up times out too), takes a timed-out adjacency Down, and disposes and removes a Down adjacency after the grace period on the checker's exit; (4) the IS reachability of the local LSP is built from exactly the neighbors the L2 neighbor managers report as Up, for all interfaces, and both state changes regenerate the LSP.",
+			Decided:     "(0) truth table of the hello handler: over all valuations of (three-way TLV present, current state, TLV names us) and of every other atom occurring in the path conditions, the state is set Up exactly for present ∧ not Up ∧ names-us and Down exactly for present ∧ Up ∧ ¬names-us; (1) the adjacency state is set to Up only under `the neighbor's three-way TLV names this system and this circuit` (both the system ID and the circuit ID are compared), and hello processing sets it to Down only under the negation for an adjacency that is Up; (2) the holding time armed at creation and at every later hello is computed from the HoldingTimer field of that hello; (3) the periodic checker applies the holding time to every adjacency that is not already Down (so one that never came Up times out too), takes a timed-out adjacency Down, and disposes and removes a Down adjacency after the grace period on the checker's exit; (4) the IS reachability of the local LSP is built from exactly the neighbors the L2 neighbor managers report as Up, for all interfaces, and both state changes regenerate the LSP.",
 			NotDecided:  "timing (that the checker ticks, how long 'eventually' is); the content of the reachability entries; LAN adjacencies.",
 			TrustedBase: stdTrusted,
 		},
 		Run: runC31,
 		Controls: []Control{
+			{Name: "timeout-retaken-every-tick", File: "protocols/isis/server/neighbor.go", Old: "\t\t\tif state != packet.P2PAdjStateDown {\n\t\t\t\tif n.timedOut() {\n\t\t\t\t\tn.down()\n\t\t\t\t\tstate, change = n.getStateAndTime()\n\t\t\t\t}\n\t\t\t}\n", New: "\t\t\tif n.timedOut() {\n\t\t\t\tn.down()\n\t\t\t\tstate, change = n.getStateAndTime()\n\t\t\t}\n", Expect: "timeout-covers-every-live-state"},
+			{Name: "short-three-way-tlv-ignored", File: "protocols/isis/server/neighbor.go", Old: "\tp2pAdjState := getP2PAdjTLV(hello.TLVs)\n\tif p2pAdjState == nil {\n", New: "\tp2pAdjState := getP2PAdjTLV(hello.TLVs)\n\tif p2pAdjState == nil || p2pAdjState.Length() < packet.P2PAdjacencyStateTLVLenWithNeighbor {\n", Expect: "hello-drives-adjacency-state"},
 			{Name: "refactor-three-way-result-in-local", Silent: true, File: "protocols/isis/server/neighbor.go", Old: "\tif n.getState() != packet.P2PAdjStateUp && n.p2pAdjTLVContainsSelf(p2pAdjState) {", New: "\tnamesUs := n.p2pAdjTLVContainsSelf(p2pAdjState)\n\tif n.getState() != packet.P2PAdjStateUp && namesUs {"},
 			{Name: "up-without-three-way-check", File: "protocols/isis/server/neighbor.go", Old: "\tif n.getState() != packet.P2PAdjStateUp && n.p2pAdjTLVContainsSelf(p2pAdjState) {", New: "\tif n.getState() != packet.P2PAdjStateUp {", Expect: "up-requires-three-way"},
 			{Name: "circuit-id-not-compared", File: "protocols/isis/server/neighbor.go", Old: "\treturn t.NeighborSystemID == n.nm.netIfa.srv.nets[0].SystemID && t.NeighborExtendedLocalCircuitID == uint32(n.nm.netIfa.devStatus.GetIndex())", New: "\treturn t.NeighborSystemID == n.nm.netIfa.srv.nets[0].SystemID", Expect: "up-requires-three-way"},
@@ -32,6 +34,7 @@ func init() {
 }
 
 func runC31(c *core.Ctx) {
+	helloDrivesState(c)
 	p := c.P
 	proc := c.MustFunc(isisSrv + ".(*neighbor).processP2PHello")
 	contains := c.MustFunc(isisSrv + ".(*neighbor).p2pAdjTLVContainsSelf")
@@ -190,6 +193,21 @@ func runC31(c *core.Ctx) {
 				}
 			}
 			c.Check(okDown, "timeout-covers-every-live-state", checker.Name()+" takes a timed-out adjacency Down", call.Pos(), "a timed-out adjacency is not taken Down")
+		}
+		// the removal delay counts from the moment the adjacency went Down: the Down state is entered once, i.e. down()
+		// (which stamps the time of the state change) is only called for an adjacency that is not Down yet
+		for _, dc := range core.Calls(checker.Pkg, checker.Decl.Body, func(o *types.Func) bool { return o == down.Obj }) {
+			notDown := false
+			for _, ft := range core.CtlFactsAt(checker, dc) {
+				be, isB := core.Unparen(ft.Expr).(*ast.BinaryExpr)
+				if !isB {
+					continue
+				}
+				if (isConst(checker, be.Y, downC) || isConst(checker, be.X, downC)) && ((be.Op == token.NEQ && ft.Truth) || (be.Op == token.EQL && !ft.Truth)) {
+					notDown = true
+				}
+			}
+			c.Check(notDown, "timeout-covers-every-live-state", checker.Name()+" enters Down once", dc.Pos(), "down() is called on every tick on which the holding time is expired, also for an adjacency that is already Down: each call stamps a new state-change time, so the removal delay never elapses and a silent neighbor stays in the table forever")
 		}
 		okDisp := false
 		for _, dc := range core.Calls(checker.Pkg, checker.Decl.Body, func(o *types.Func) bool { return o == dispose.Obj }) {
